@@ -167,6 +167,9 @@ class FunctionOrder:
                     out.append(Hit("S3-next-iter", n, "next(iter(<set>)) selects an arbitrary element"))
             if isinstance(n, (ast.ListComp,)) and any(self._is_set_typed(g.iter) for g in n.generators) and not self.sanitized(n):
                 out.append(Hit("S1-listcomp", n, "list comprehension over an unordered collection"))
+            # a dictionary keeps insertion order: built over an unordered collection, whoever iterates it inherits the hash seed
+            if isinstance(n, ast.DictComp) and any(self._is_set_typed(g.iter) for g in n.generators) and not self.sanitized(n):
+                out.append(Hit("S1-dictcomp", n, "dictionary comprehension over an unordered collection (its iteration order is the set's)"))
             # S2 order dependent loops
             if isinstance(n, ast.For) and self._is_set_typed(n.iter):
                 eff = self.loop_effects(n)
